@@ -677,3 +677,55 @@ def error_text(out, n=6):
     lines = (out or "").splitlines()
     keep = [l.strip() for l in lines if re.search(r"Message|Error|OCCA-EXCEPTION|STD-EXCEPTION|Function|File ", l)]
     return " | ".join((keep or lines)[:n])[:600]
+
+
+def validate_many(ctx, traces, tag, what, chunk=40, max_rejections=3):
+    """trace validation of many recorded runs, batched (one JVM per `chunk` runs).  A rejected run is
+    re-validated alone before it is reported (ctx.mismatch); validation then continues behind it.  After
+    `max_rejections` reported rejections the remaining runs are left unvalidated (mismatches are deduplicated
+    by signature anyway).  -> number of runs accepted"""
+    accepted, rejections, i = 0, 0, 0
+    while i < len(traces):
+        part = traces[i:i + chunk]
+        rej = validate_traces(ctx, part, "%s%d" % (tag, i))
+        if rej is None:
+            accepted += len(part)
+            i += len(part)
+            continue
+        accepted += rej["run"]                       # the runs in front of the rejected one were consumed
+        bad = part[rej["run"]]
+        again = validate_traces(ctx, [bad], "%s%d-again" % (tag, i))
+        if again is not None:
+            ev = again["event"] or {}
+            ctx.mismatch("trace:%s:%s:%s:%s" % (again["reason"], ev.get("e"), ev.get("f") or ev.get("d"),
+                                                 "tmp" if ev.get("t") else "final"),
+                         "%s is rejected by CacheFSTrace at event %d %s: %s"
+                         % (what(i + rej["run"]), again["event_index"], {k: ev.get(k) for k in ("e", "n", "s")}, again["reason"]),
+                         [{"rejected": again["reason"], "event_index": again["event_index"], "run": what(i + rej["run"])}]
+                         + [dict({k: e.get(k) for k in ("e", "n", "f", "t", "d", "r", "s", "st")},
+                                 env=bool(bad[0]), fo=bool(bad[2]) if len(bad) > 2 else False) for e in bad[1]])
+            rejections += 1
+            if rejections >= max_rejections:
+                ctx.notes.append("trace validation stopped after %d rejections; %d runs left unvalidated"
+                                 % (rejections, len(traces) - i - rej["run"] - 1))
+                break
+        else:
+            accepted += 1                            # not repeated: not reported
+        i += rej["run"] + 1
+    return accepted
+
+
+def load_replay(path):
+    return [json.loads(l) for l in open(path) if l.strip()]
+
+
+def replay_trace(ctx, recs):
+    """re-validate a stored rejected trace (records after the header are the events)"""
+    evs = recs[1:]
+    for e in evs:
+        for k, dflt in (("f", ""), ("d", "?"), ("st", False), ("s", ""), ("r", True), ("t", False), ("n", "")):
+            if e.get(k) is None:
+                e[k] = dflt
+    env = bool(evs and evs[0].get("env"))
+    fo = bool(evs and evs[0].get("fo"))
+    return validate_many(ctx, [(env, evs, fo)], "replay", lambda i: "the stored trace")
